@@ -244,6 +244,15 @@ theorem silence_only_replaces_zeros (s : Nat) (xs : List Arg) (hb : Below.belowL
 theorem silence_leaves_no_zero (s : Nat) (xs : List Arg) : ZeroFree.allZF (rzList s xs).2 :=
   rzList_zeroFree s xs
 
+/-- the replacement is a function of the VALUES and is the identity on its own output: a list that
+    holds no literal zero comes back unchanged.  (The real code replaces in place in a private copy;
+    if it ever did so in the caller's list — seeded change C03-r4m2 — a second build would find the
+    first build's silences instead of zeros and keep them: exactly this identity.) -/
+theorem silence_idempotent (s s' : Nat) (xs : List Arg) :
+    (rzList s' (rzList s xs).2).2 = (rzList s xs).2 := by
+  rw [rzList.eq_1 s']
+  exact rz_id_of_zeroFree _ _ _ (rzList_zeroFree s xs)
+
 /-- … hence no output unit ever receives a literal zero as a channel, at any channel path
     (tuples are opaque and are not inspected) -/
 theorem out_no_literal_zero (s : Nat) (fixed : List Arg) (output : Arg) :
